@@ -1,7 +1,7 @@
 #!/bin/bash
 # usage: tools/run_all.sh [tier] — runs every registered check sequentially, one summary line each.
 tier="${1:-quick}"
-cd /verif
+cd "$(dirname "$(readlink -f "$0")")/.."
 for id in $(python3 -c "import json;print(' '.join(c['property_id'] for c in json.load(open('MANIFEST.json'))['checks']))"); do
   out=$(./check "$id" --tier "$tier" 2>&1); rc=$?
   echo "$(echo "$out" | grep "^$id tier=" | tail -1) rc=$rc"
